@@ -46,6 +46,9 @@ file_create(struct file* file, const char* filename, size_t bytesof_filename)
             LOGE("Failed to create existing file \"%s\"", filename);
             int tmp = errno;
             close(file->fid);
+            // Nothing is open any more. Callers key their own close on fid, so
+            // do not leave the number of a closed descriptor behind.
+            file->fid = -1;
             CHECK_POSIX(tmp);
         }
     }
